@@ -650,11 +650,9 @@ func (r *replicateChannelManager) AddPartition(ctx context.Context, dbInfo *mode
 
 func (r *replicateChannelManager) StopReadCollection(ctx context.Context, info *pb.CollectionInfo) error {
 	for _, channel := range info.GetPhysicalChannelNames() {
-		handler := r.stopReadChannel(channel, info.ID)
-		if handler == nil {
-			continue
-		}
-		handler.Close()
+		// the stream of the collection is closed when the collection is removed from the handler.
+		// DO NOT close the handler, because it is shared with the other collections, also the collections of other tasks
+		r.stopReadChannel(channel, info.ID)
 	}
 	r.collectionLock.Lock()
 	closeChan, ok := r.replicateCollections[info.ID]
